@@ -267,11 +267,36 @@ class C13(Property):
                 cases.append({'op': 'fmt', 'which': rng.choice(FORMATS), 's': s, 'suffixes': sfx})
             elif r < 0.93:
                 cases.append(self._reaction_case(rng))
-            elif r < 0.965:
+            elif r < 0.955:
                 cases.append(self._history_case(rng))
-            else:
+            elif r < 0.975:
                 cases.append(self._phases_history_case(rng))
+            elif r < 0.99:
+                cases.append({'op': 'charge', 's': self._charge_text(rng)})
+            else:
+                ks = rng.sample(['H2O', 'H+', 'OH-', 'Na+', 'Cl-', 'CO2(g)', 'X'], rng.randint(2, 4))
+                cut = rng.randint(1, len(ks) - 1)
+                cases.append({'op': 'printer_dispatch', 'printer': rng.choice(['str', 'latex', 'unicode', 'html', 'html']), 'eq': rng.random() < 0.3,
+                              'reac': [[k, rng.choice([1, 2, 0])] for k in ks[:cut]], 'prod': [[k, rng.choice([1, 3])] for k in ks[cut:]],
+                              'own': [k for k in ks if rng.random() < 0.6], 'fallback': rng.random() < 0.6})
         return cases
+
+    @staticmethod
+    def _charge_text(rng):
+        """charge texts for `_get_charge` called directly: well-formed (sign, optional magnitude) and ill-formed (magnitude before the sign, text on both
+        sides, both signs, repeated sign, no sign, empty, non-numeric magnitude); ASCII only, no blanks / underscores (outside the modelled domain of int())"""
+        r = rng.random()
+        if r < 0.3:
+            return rng.choice('+-') + rng.choice(['', '', '1', '2', '3', '12', '007', '0', '100'])
+        if r < 0.5:
+            return rng.choice(['3+', '2-', '12+', '1-', '0+'])                                # magnitude before the sign
+        if r < 0.65:
+            return rng.choice(['1+2', '2-3', 'x+1', '3-x', '1+', 'a-'])                      # text on both sides / before
+        if r < 0.8:
+            return rng.choice(['+-', '-+', '+3-', '-2+', '++', '--', '+1+', '-2-2', '+-2'])
+        if r < 0.9:
+            return rng.choice(['', '3', 'x', '12', '.', '2.5'])                               # no sign
+        return rng.choice('+-') + rng.choice(['x', '2x', '1.5', '1e3', '..', 'e', '(aq)', '3(s)'])
 
     def _phases_history_case(self, rng):
         """3-6 Species.from_formula calls sharing ONE phases object, by type of that object (tuple, list, dict, OrderedDict, generator),
@@ -332,7 +357,10 @@ class C13(Property):
         else:
             ks = rng.sample(['(s)', '(l)', '(g)', '(aq)'], rng.randint(1, 4))
             phases = [[k, rng.randint(-1, 5)] for k in ks]
-        return {'op': 'species', 'ast': f, 's': fg.render(f), 'phases': phases, 'default': rng.choice([0, 0, 0, None, 7])}
+        c = {'op': 'species', 'ast': f, 's': fg.render(f), 'phases': phases, 'default': rng.choice([0, 0, 0, None, 7])}
+        if rng.random() < 0.15:
+            c['phase_idx'] = rng.choice([0, 1, 2, 3, 9, -1])      # explicit keyword: wins over suffix and default
+        return c
 
     def _reaction_case(self, rng):
         keys = []
@@ -390,9 +418,12 @@ class C13(Property):
         if op == 'ast':
             return {'op': 'ast', 'ast': c['ast']}
         if op == 'species':
-            return {'op': 'species', 's': c['s'], 'phases': c['phases'], 'default': c['default']}
-        if op in ('history', 'phases_history'):
-            return None                    # stateful: oracle only (the model is a pure function; `substance` / `species` cover single calls)
+            m = {'op': 'species', 's': c['s'], 'phases': c['phases'], 'default': c['default']}
+            if c.get('phase_idx') is not None:
+                m['phase_idx'] = c['phase_idx']
+            return m
+        if op in ('history', 'phases_history', 'printer_dispatch'):
+            return None                    # stateful / third-party dispatch: oracle only (the model is a pure function; `substance` / `species` cover single calls)
         if op == 'reaction':
             if any(isinstance(v, dict) for _, v in c['reac'] + c['prod'] + c.get('inact_reac', []) + c.get('inact_prod', [])):
                 return None                # float coefficients: oracle only
@@ -427,8 +458,13 @@ class C13(Property):
             from chempy import Species
             ph = c['phases']
             phases = dict((k, v) for k, v in ph) if ph and isinstance(ph[0], list) else tuple(ph)
-            o = call(Species.from_formula, c['s'], phases, c['default'])
+            kw = {'phase_idx': c['phase_idx']} if c.get('phase_idx') is not None else {}
+            o = call(Species.from_formula, c['s'], phases, c['default'], **kw)
             return o[1] if is_exc(o) else js([o.latex_name, o.unicode_name, o.html_name, o.phase_idx])
+        if op == 'charge':
+            from chempy.util.parsing import _get_charge
+            o = call(_get_charge, c['s'])
+            return o[1] if is_exc(o) else (str(o) if isinstance(o, int) and not isinstance(o, bool) else '!not-an-int:%r' % (o,))
         if op == 'reaction':
             rxn, subst = self._rxn(c)
             meth = {'str': rxn.string, 'latex': rxn.latex, 'unicode': rxn.unicode, 'html': rxn.html}[c['printer']]
@@ -460,6 +496,72 @@ class C13(Property):
             return self._oracle_history(c)
         if op == 'phases_history':
             return self._oracle_phases_history(c)
+        if op == 'charge':
+            return self._oracle_charge(c['s'])
+        if op == 'printer_dispatch':
+            return self._oracle_dispatch(c)
+        return None
+
+    def _oracle_charge(self, t):
+        """`_get_charge`: a sign with an optional magnitude after it is that signed integer (bare sign = 1); a text with both signs, with a
+        repeated sign, with a magnitude in front of the sign, or without a sign is refused"""
+        from chempy.util.parsing import _get_charge
+        o = call(_get_charge, t)
+        m = re.fullmatch(r'([+-])([0-9]*)', t)
+        if m:
+            want = (1 if m.group(1) == '+' else -1) * (int(m.group(2)) if m.group(2) else 1)
+            if is_exc(o) or o != want or isinstance(o, bool):
+                return '_get_charge(%r) = %r, written charge is %d' % (t, o[1] if is_exc(o) else o, want)
+            return None
+        bad = ('+' in t and '-' in t) or t.count('+') > 1 or t.count('-') > 1 or not ('+' in t or '-' in t) or re.fullmatch(r'[0-9]+[+-]', t)
+        if bad and not is_exc(o):
+            return '_get_charge(%r) returned %r for an ill-formed charge text' % (t, o)
+        if is_exc(o) and o[1] != 'ValueError':
+            return '_get_charge(%r) raised %s (ValueError expected)' % (t, o[1])
+        return None
+
+    def _oracle_dispatch(self, c):
+        """printer dispatch around species that are not Substances: an object with its own `_html` rendering is shown through it by the HTML
+        printer, by `str()` (the fallback) by the others; a plain key is shown as it is; without a fallback function both are refused"""
+        from chempy import Reaction, Equilibrium
+        from chempy import printing
+
+        class Own(object):
+            def __init__(self, name):
+                self.name = name
+
+            def _html(self, printer, **kwargs):
+                return '<b>%s</b>' % self.name
+
+            def __str__(self):
+                return 'str:' + self.name
+        Cls = Equilibrium if c['eq'] else Reaction
+        rxn = Cls(dict((k, v) for k, v in c['reac']), dict((k, v) for k, v in c['prod']), checks=())
+        subst = {k: Own(k) for k in c['own']}
+        fn = {'str': printing.str_, 'latex': printing.latex, 'unicode': printing.unicode_, 'html': printing.html}[c['printer']]
+        kw = {} if c['fallback'] else {'fallback_print_fn': None}
+        out = call(fn, rxn, substances=subst, with_param=False, with_name=False, **kw)
+        shown = [k for d in (rxn.reac, rxn.prod) for k, v in d.items() if v != 0]
+
+        def needs_fallback(k):
+            return not (k in subst and c['printer'] == 'html')
+        if not c['fallback'] and any(needs_fallback(k) for k in shown):
+            if is_exc(out) and out[1] == 'ValueError':
+                return None
+            return '%s printer without fallback_print_fn should refuse species %r, got %r' % (c['printer'], [k for k in shown if needs_fallback(k)], out)
+        if is_exc(out):
+            return '%s printing with own-rendering species raised %s' % (c['printer'], out[1])
+
+        def name(k):
+            if k in subst:
+                return '<b>%s</b>' % k if c['printer'] == 'html' else 'str:' + k
+            return k
+
+        def side(d):
+            return ' + '.join(('' if v == 1 else str(v) + ' ') + name(k) for k, v in d.items() if v != 0)
+        want = side(rxn.reac) + ' ' + ARROWS[(c['printer'], c['eq'])] + ' ' + side(rxn.prod)
+        if out != want:
+            return '%s print with own-rendering species is %r, expected %r' % (c['printer'], out, want)
         return None
 
     def _oracle_phases_history(self, c):
@@ -666,7 +768,11 @@ class C13(Property):
                 break
         if want is None:
             want = c['default']
-        o = call(Species.from_formula, s, phases, c['default'])
+        kw = {}
+        if c.get('phase_idx') is not None:                      # an explicit phase_idx keyword is carried as it is, nothing is refused for the phase
+            want = c['phase_idx']
+            kw = {'phase_idx': c['phase_idx']}
+        o = call(Species.from_formula, s, phases, c['default'], **kw)
         if want is None:
             return None if is_exc(o) and o[1] == 'ValueError' else 'Species.from_formula(%r, %r, None) should raise ValueError, got %r' % (s, phases, o)
         if is_exc(o):
